@@ -1,8 +1,8 @@
 #!/bin/bash
 # Confirms and evaluates the mutations a round-2 sub-agent left in /tmp/mut/R2<Cxx>/_out.
-# usage: tools/process_round.sh <Cxx>
+# usage: tools/process_round.sh <Cxx> [R2|R3]
 set -u
-ID="$1"; WTD="/tmp/mut/R2$ID"
+ID="$1"; RND="${2:-R2}"; TAGL=$(echo "$RND" | tr A-Z a-z); WTD="/tmp/mut/$RND$ID"
 cd /verif
 for m in m1 m2 m3; do
   [ -f "$WTD/_out/$m.diff" ] || { echo "$ID $m: no diff"; continue; }
@@ -14,12 +14,12 @@ try:
 except Exception: print("")
 PY
 )
-  res=$(WT="$WTD" TAG=r2 tools/confirm_mutation.sh "$ID" "$m" $feats 2>&1 | tail -2 | tr '\n' ' ')
+  res=$(WT="$WTD" TAG=$TAGL tools/confirm_mutation.sh "$ID" "$m" $feats 2>&1 | tail -2 | tr '\n' ' ')
   echo "$ID $m confirm: $res"
-  if [ -d "seeded/$ID-r2$m" ]; then
-    out=$(tools/try_mutation.sh "seeded/$ID-r2$m/patch.diff" "$ID" quick 2>/dev/null)
+  if [ -d "seeded/$ID-$TAGL$m" ]; then
+    out=$(tools/try_mutation.sh "seeded/$ID-$TAGL$m/patch.diff" "$ID" quick 2>/dev/null)
     echo "$ID $m check: $(echo "$out" | grep -o 'exit=[0-9]*' | tail -1) $(echo "$out" | grep -o 'signature=[^ ]*' | sed 's/signature=//' | sort -u | tr '\n' ' ' | cut -c1-300)"
-    python3 - "seeded/$ID-r2$m/meta.json" "$WTD/_out/${m}_meta.json" <<'PY'
+    python3 - "seeded/$ID-$TAGL$m/meta.json" "$WTD/_out/${m}_meta.json" <<'PY'
 import json,sys
 m=json.load(open(sys.argv[1]))
 try:
